@@ -377,6 +377,15 @@ func init() {
 					cs = append(cs, &c02Case{Main: prog, Lane: "malformed-affix", Update: true})
 				}
 			}
+			// deeply nested groups around a dot (the clean-up passes count parentheses)
+			for _, depth := range []int{100, 126, 127, 128, 130, 200, 300} {
+				cs = append(cs, &c02Case{Main: strings.Repeat("(", depth) + "a." + strings.Repeat(")", depth) + "\nb\n", Lane: "deep-nesting"},
+					&c02Case{Main: "##!+ i\n" + strings.Repeat("(?:x|(", depth) + "a.b" + strings.Repeat("))", depth) + "\n", Lane: "deep-nesting"})
+			}
+			// author-written flag groups in programs without any of ^ $ .
+			for _, m := range []string{"x(?i:abc)\n", "(?i)select\n", "##!+ i\nfoo(?i:bar)|baz\n", "(?s:a)b\nc\n", "##!> assemble\n  (?i:k)\n  l\n##!<\n"} {
+				cs = append(cs, &c02Case{Main: m, Lane: "author-flag-groups", Update: true})
+			}
 			return cs
 		},
 		Check:         c02Check,
